@@ -164,9 +164,11 @@ def run_case(spec, lines, out):
         return np.array([frac(v) for v in tokens], dtype=float).reshape(shape)
 
     last = None
+    n_op = -1
     for op in spec["ops"]:
         kind = op["kind"]
         line = None
+        n_op += 1
         try:
             k = int(op.get("scale", 0))
             f, g = 2.0 ** (-k), 2.0 ** k
@@ -198,8 +200,19 @@ def run_case(spec, lines, out):
                     toks = op["stock"]
                     st = driver_array(toks)
                 line = f"sdsm{x}{pre} " + " ".join(toks)
-                s = StockDrivenDSM(dims=dims, lifetime_model=model, time_letter="t", solver=op["solver"],
-                                   stock=StockArray(dims=dims, values=st))
+                how = (int(spec["id"]) + n_op) % 3 if (op.get("stock") == "from_idsm" and isinstance(last, InflowDrivenDSM)) else 0
+                if how == 1:
+                    # the library's own conversion of the computed inflow-driven stock
+                    s = last.to_stock_type(StockDrivenDSM, solver=op["solver"])
+                elif how == 2:
+                    # both models set up first and wired through one StockArray, computed afterwards
+                    first = InflowDrivenDSM(dims=dims, lifetime_model=model, time_letter="t",
+                                            inflow=StockArray(dims=dims, values=np.array(last.inflow.values, dtype=float)))
+                    s = StockDrivenDSM(dims=dims, lifetime_model=model, time_letter="t", solver=op["solver"], stock=first.stock)
+                    first.compute()
+                else:
+                    s = StockDrivenDSM(dims=dims, lifetime_model=model, time_letter="t", solver=op["solver"],
+                                       stock=StockArray(dims=dims, values=st))
                 s.compute()
                 emit(line, f"ok I {nums(s.inflow.values * g)} | O {nums(s.outflow.values * g)} | SC {nums(s.get_stock_by_cohort() * g)} | "
                            f"OC {nums(s.get_outflow_by_cohort() * g)} | D {nums(s.stock.values * g)}")
